@@ -1,10 +1,10 @@
 SPECIFICATION Spec
-CONSTANTS N = 3
- NNames = 1
- FullY = TRUE
- Pep709 = FALSE
- Skeleton = FALSE
- AllOptions = TRUE
+CONSTANTS N = 5
+ NNames = 2
+ FullY = FALSE
+ Pep709 = TRUE
+ Skeleton = TRUE
+ AllOptions = FALSE
 INVARIANT NoCapture
 INVARIANT StaysCompilable
 INVARIANT InterfaceKept
